@@ -37,6 +37,12 @@ type ggroup struct {
 func (g *ggroup) pattern() string {
 	var sb strings.Builder
 	switch g.kind {
+	case "On":
+		return "(?n)"
+	case "Off":
+		return "(?-n)"
+	}
+	switch g.kind {
 	case "U":
 		sb.WriteString("(")
 	case "N", "E":
@@ -55,6 +61,9 @@ func (g *ggroup) pattern() string {
 }
 
 func (g *ggroup) text() string {
+	if g.kind == "On" || g.kind == "Off" {
+		return ""
+	}
 	s := string(g.letter)
 	for _, c := range g.children {
 		s += c.text()
@@ -78,21 +87,37 @@ type gmode struct {
 
 // the documented numbering rule; returns number -> expected text of the group's last capture, and name -> number
 func gOracle(top []*ggroup, mode gmode) (texts map[int]string, names map[string]int) {
+	// groups in order of their opening parenthesis; an inline (?n) / (?-n) switches ExplicitCapture for the rest of
+	// the enclosing group
 	var all []*ggroup
-	for _, g := range top {
-		g.walk(func(x *ggroup) { all = append(all, x) })
+	noCapture := map[*ggroup]bool{}
+	var visit func(gs []*ggroup, explicit bool)
+	visit = func(gs []*ggroup, explicit bool) {
+		for _, g := range gs {
+			switch g.kind {
+			case "On":
+				explicit = true
+				continue
+			case "Off":
+				explicit = false
+				continue
+			}
+			all = append(all, g)
+			noCapture[g] = explicit
+			visit(g.children, explicit)
+		}
 	}
+	visit(top, mode.opt&ExplicitCapture != 0)
 	texts = map[int]string{}
 	names = map[string]int{}
 	used := map[int]bool{0: true}
-	explicitCapture := mode.opt&ExplicitCapture != 0
 	num := map[*ggroup]int{}
 	if mode.maintain {
 		auto := 1
 		for _, g := range all {
 			switch g.kind {
 			case "U":
-				if explicitCapture {
+				if noCapture[g] {
 					continue
 				}
 				num[g] = auto
@@ -114,7 +139,7 @@ func gOracle(top []*ggroup, mode gmode) (texts map[int]string, names map[string]
 		for _, g := range all {
 			switch g.kind {
 			case "U":
-				if explicitCapture {
+				if noCapture[g] {
 					continue
 				}
 				num[g] = auto
@@ -168,7 +193,7 @@ func gOracle(top []*ggroup, mode gmode) (texts map[int]string, names map[string]
 }
 
 func gPatterns(level int) [][]*ggroup {
-	kinds := []gkind{{"U", ""}, {"N", "n"}, {"N", "m"}, {"E", "1"}, {"E", "2"}, {"E", "3"}, {"E", "5"}, {"X", ""}, {"P", "n"}}
+	kinds := []gkind{{"U", ""}, {"N", "n"}, {"N", "m"}, {"E", "1"}, {"E", "2"}, {"E", "3"}, {"E", "5"}, {"X", ""}, {"P", "n"}, {"On", ""}, {"Off", ""}}
 	var out [][]*ggroup
 	maxLen := 3
 	if level >= 2 {
@@ -187,12 +212,12 @@ func gPatterns(level int) [][]*ggroup {
 			}
 			out = append(out, mk())
 			// the first group wraps the second; the second wraps the third
-			if len(cur) >= 2 {
+			if len(cur) >= 2 && cur[0].kind != "On" && cur[0].kind != "Off" {
 				gs := mk()
 				gs[0].children = []*ggroup{gs[1]}
 				out = append(out, append([]*ggroup{gs[0]}, gs[2:]...))
 			}
-			if len(cur) >= 3 {
+			if len(cur) >= 3 && cur[1].kind != "On" && cur[1].kind != "Off" {
 				gs := mk()
 				gs[1].children = []*ggroup{gs[2]}
 				out = append(out, append([]*ggroup{gs[0], gs[1]}, gs[3:]...))
